@@ -1,14 +1,16 @@
 #!/bin/sh
 # usage: lib/try_mutant.sh <patch.diff> <Cxx> [<Cyy> ...]
-# Applies a seeded change to /repo, runs the quick tier of the given checks, and ALWAYS restores /repo.
-patch="$1"; shift
+# Applies a seeded change to a scratch worktree of /repo (never to /repo itself), runs the quick tier of the
+# given checks against it (VERIF_REPO / VERIF_TARGET), and removes the worktree with its build output.
+patch=$(readlink -f "$1"); shift
+W=/tmp/wt-mut-$$
 cd /verif || exit 3
-if ! git -C /repo diff --quiet; then echo "/repo has uncommitted changes; refusing"; exit 3; fi
-git -C /repo apply "$patch" || { echo "patch does not apply"; exit 3; }
-trap 'git -C /repo checkout -- . ; git -C /repo clean -fdq' EXIT INT TERM
+git -C /repo worktree add -q --detach $W HEAD || exit 3
+trap 'git -C /repo worktree remove --force $W >/dev/null 2>&1; rm -rf $W' EXIT INT TERM
+git -C $W apply "$patch" || { echo "patch does not apply"; exit 3; }
 for c in "$@"; do
-  out=$(VERIF_NO_EVIDENCE=1 ./check "$c" 2>&1); rc=$?
+  out=$(VERIF_REPO=$W VERIF_TARGET=$W/vt VERIF_NO_EVIDENCE=1 ./check "$c" 2>&1); rc=$?
   echo "== $c rc=$rc"
-  echo "$out" | grep -E "VIOLATION|INCONCLUSIVE|KNOWN-FINDING|^\[C" | cut -c1-300 | head -8
+  echo "$out" | grep -E "VIOLATION|INCONCLUSIVE|KNOWN-FINDING|^\[C" | cut -c1-300 | head -6
   echo "$out" | grep -E "^  [a-z]" | cut -c1-400 | head -3
 done
